@@ -393,7 +393,7 @@ class TaggedUnionConverter(UnionConverter):
         if self.external is False:
             try:
                 # don't give 'tag' to variants
-                val = val.copy()
+                val = dict(val)
                 tag = val.pop(self.tag)
             except KeyError:
                 raise ParseInterrupt()
@@ -425,7 +425,7 @@ class TaggedUnionConverter(UnionConverter):
         if self.external is False:
             try:
                 # don't give 'tag' to variants
-                val = val.copy()
+                val = dict(val)
                 tag = val.pop(self.tag)
             except KeyError:
                 return WrongTypeError(f"mapping with key '{self.tag}' => {self.tag_expected()}", val)
